@@ -48,12 +48,34 @@ def run_impl(case):
     else:
         dut = cls(shape)
         init = 0
-    top = simutil.wrap(dut)
-    sim = Simulator(top)
+    # ---- variant (own random stream): the same action as a field of a csr.Register among sibling fields
+    # (one sibling path joins to the same `__` name as the field under test), driven and read through
+    # the register's element — "a field's data output equals what a bus read of it returns"
+    rnd2 = lib.rng_for(case["seed"], case["idx"], 1222)
+    inreg = rnd2.random() < 0.3
+    reg, off = None, 0
+    if inreg:
+        from amaranth_soc import csr
+        kw = {"init": conv(init)} if kind in ("RW", "RW1C", "RW1S") else {}
+        w0, w1 = rnd2.randint(0, 5), rnd2.randint(0, 5)
+        coll = rnd2.random() < 0.5
+        first = rnd2.random() < 0.5           # the field under test comes before / after the sibling it collides with
+        mine = csr.Field(cls, shape, **kw)
+        if first:
+            reg = csr.Register({"a": {"b": mine}, ("a__b" if coll else "t"): csr.Field(action.RW, w0),
+                                "z": csr.Field(action.RW, w1)}, access="rw")
+            dut, off = [f for p, f in reg if p == ("a", "b")][0], 0
+        else:
+            reg = csr.Register({"a": {"b": csr.Field(action.RW, w0)}, ("a__b" if coll else "t"): mine,
+                                "z": csr.Field(action.RW, w1)}, access="rw")
+            dut, off = [f for p, f in reg if p == (("a__b",) if coll else ("t",))][0], w0
+    top = simutil.wrap(reg if inreg else dut)
+    sim = simutil.simulator(top, case)
     sim.add_clock(1e-6)
     lines = [f"case {kind if kind != 'RES' else 'RES'} {w} {init}"]
     obs, fails = [], []
-    stats = {"cycles": 0, "writes": 0, "ties": 0, kind: 1, "shape_" + shp: 1}
+    stats = {"cycles": 0, "writes": 0, "ties": 0, kind: 1, "shape_" + shp: 1, "inside_register": int(inreg)}
+    readable = kind in ("R", "RW", "RW1C", "RW1S")
     N = case["ncycles"]
     exhaustive = w <= 2 and kind in ("RW1C", "RW1S") and rnd.random() < 0.5
 
@@ -70,9 +92,14 @@ def run_impl(case):
                 wstb, wdata, aux = code & 1, (code >> 1) & mask, (code >> (1 + w)) & mask
             if rnd.random() < .2:
                 aux = wdata            # provoke set/clear ties
-            ctx.set(dut.port.r_stb, rstb)
-            ctx.set(dut.port.w_stb, wstb)
-            setv(ctx, dut.port.w_data, wdata)
+            if inreg:
+                ctx.set(reg.element.r_stb, rstb)
+                ctx.set(reg.element.w_stb, wstb)
+                ctx.set(reg.element.w_data, (wdata << off) | rnd2.getrandbits(off) | (rnd2.getrandbits(6) << (off + w)))
+            else:
+                ctx.set(dut.port.r_stb, rstb)
+                ctx.set(dut.port.w_stb, wstb)
+                setv(ctx, dut.port.w_data, wdata)
             if kind == "R":
                 setv(ctx, dut.r_data, aux)
             elif kind == "RW1C":
@@ -83,6 +110,10 @@ def run_impl(case):
                 aux = 0
             lines.append(f"cyc {rstb} {wstb} {wdata} {aux}")
             portr = simutil.getv(ctx, dut.port.r_data)
+            if inreg and readable:
+                busr = (ctx.get(reg.element.r_data) >> off) & mask
+                if busr != portr:
+                    fails.append(("C12", f"{kind} width {w} cycle {t}: a bus read of the field returns {busr}, its port.r_data is {portr}", t))
             if kind == "R":
                 d, s = 0, ctx.get(dut.r_stb)
             elif kind == "W":
